@@ -303,6 +303,21 @@ where
                             .find_folder_password(id)
                             .await
                         {
+                            // When the folder password was changed later
+                            // in the same sequence of events the buffer
+                            // is encrypted with a superseded password
+                            // and a later event (or the merge of the
+                            // folder events) carries the folder so we
+                            // need to skip the operation.
+                            let vault: Vault = decode(buf).await?;
+                            if vault.verify(&key).await.is_err() {
+                                tracing::warn!(
+                                    folder_id = %id,
+                                    "merge skipped folder with superseded password");
+                                events.push(event);
+                                continue;
+                            }
+
                             // Must operate on the storage level otherwise
                             // we would duplicate identity events for folder
                             // password
